@@ -445,6 +445,11 @@ std::string ops_text()
 }
 
 // compares the library's call log with the model's, classifies a difference
+inline std::vector<std::function<bool()>> &lvalue_guards()
+{
+  static std::vector<std::function<bool()>> g;
+  return g;
+}
 void judge_calls(ctx &cx, char const *flavor)
 {
   calls &got = lib_log();
@@ -485,12 +490,22 @@ void judge(ctx &cx, char const *flavor, G const &got, G const &want, bool presen
       o << "got=" << got << " want=" << want;
     vf::violation(cx.fn + "/" + flavor + "/result", "mismatch", o.str() + ops_text());
   }
+  for (auto const &unchanged : lvalue_guards())
+    if (!unchanged())
+    {
+      vf::violation(cx.fn + "/" + flavor + "/lvalue-operand-modified", "mismatch", "a non-const lvalue operand no longer holds its value" + ops_text());
+      break;
+    }
+  if (!lvalue_guards().empty())
+    VF_COUNT("nonconst-lvalue-operands/checked");
+  lvalue_guards().clear();
   judge_calls(cx, flavor);
 }
 inline void begin_eval()
 {
   lib_log().clear();
   model_log().clear();
+  lvalue_guards().clear();
 }
 
 // one row = one begin_case: (entry, table id) with all values / flavours inside
@@ -516,14 +531,24 @@ void row(std::string const &entry, long table, Body const &body)
     vf::add_evals(g_row_evals - 1);
 }
 
-// value categories: const lvalue or rvalue
+// value categories: const lvalue or rvalue.  In the second build of this harness (-DC04_NONCONST_LVALUES) every lvalue
+// operand is passed as a NON-CONST lvalue instead - the category from which a library that forwards with the wrong
+// value category can actually move - and judge() checks afterwards that it still holds what it held.
 template <bool R, class T>
 decltype(auto) pass(T &s)
 {
   if constexpr (R)
     return std::move(s);
   else
+  {
+#ifdef C04_NONCONST_LVALUES
+    if constexpr (std::is_copy_constructible_v<T> && requires(T const &a, T const &b) { a == b; })
+      lvalue_guards().push_back([&s, copy = s] { return s == copy; });
+    return (s);
+#else
     return std::as_const(s);
+#endif
+  }
 }
 template <bool R>
 constexpr char const *fl1()
